@@ -222,6 +222,31 @@ func (g *Gen) solveAll(obls []*Obligation, dir string, timeoutMS, seed, par int)
 		}()
 	}
 	wg.Wait()
+	// stage 3: obligations left undecided are retried with little parallelism and twice the budget, so
+	// that a verdict does not depend on how loaded the machine was during the parallel pass
+	var again []*Obligation
+	for _, ob := range obls {
+		if ob.Expect == "unsat" && !ob.Abstract && (ob.Verdict == "unknown" || ob.Verdict == "timeout") {
+			again = append(again, ob)
+		}
+	}
+	if len(again) == 0 || len(again) > 40 {
+		return
+	}
+	sem2 := make(chan struct{}, 4)
+	for _, ob := range again {
+		ob := ob
+		wg.Add(1)
+		sem2 <- struct{}{}
+		go func() {
+			defer wg.Done()
+			defer func() { <-sem2 }()
+			first := ob.Output
+			g.solveOne(ob, dir, header, timeoutMS*2, seed+1)
+			ob.Output = "retry after: " + first + " | " + ob.Output
+		}()
+	}
+	wg.Wait()
 }
 
 // modelFor re-runs the winning solver with (get-model)/(get-value) to obtain a counterexample.
